@@ -57,6 +57,27 @@ impl RefIme {
         if self.cpu.run_state != RUN {
             return Ins::Idle;
         }
+        // the emulator executes from cartridge ROM, work RAM (and its echo) and high RAM only; a return address popped from
+        // elsewhere (e.g. after a dispatch whose pushes landed on IE) leaves the alphabet of this property
+        if !matches!(self.cpu.pc, 0x0000..=0x7fff | 0xc000..=0xfe9f | 0xff80..=0xfffe) {
+            return Ins::Unknown(0);
+        }
+        // ... and an instruction that would straddle the end of the region its first byte lies in is outside it as well
+        // (the emulator decodes from a slice that ends there)
+        let len: u32 = match rd(bus, self.cpu.pc) {
+            Some(0x3e) | Some(0xe0) | Some(0x18) | Some(0x10) => 2,
+            Some(0xea) => 3,
+            _ => 1,
+        };
+        let pc = self.cpu.pc as u32;
+        let room = match self.cpu.pc {
+            0x0000..=0x7fff => 0x4000 - (pc & 0x3fff),
+            0xc000..=0xfe9f => 0x1000 - (pc & 0x0fff),
+            _ => 0xffff - pc,
+        };
+        if len > room {
+            return Ins::Unknown(0);
+        }
         match rd(bus, self.cpu.pc) {
             Some(0x00) => Ins::Nop,
             Some(0xfb) => Ins::Ei,
